@@ -35,6 +35,7 @@ UNIT_DEPS = {
     'prim_mul': ['mul', 'conv'],
     'round': ['core', 'pow10', 'types', 'context'],
     'config': ['types'],
+    'float': ['core', 'types', 'conv'],
     'fmt': ['insig', 'round', 'config', 'types'],
     'insig': ['round', 'config', 'types'],
     'clients': ['add', 'sub', 'mul', 'derived', 'prim_add', 'prim_sub', 'prim_mul', 'canon', 'cmp', 'scale', 'core'],
@@ -65,7 +66,8 @@ def closure(units):
 FIX_COMMITS = ['6dbd058 fix: with_prec rounds negative values symmetrically (C07)',
                'c977df5 fix: DivAssign<integer> panics on a zero divisor (C08)',
                'beb88f2 fix: equality no longer overflows when adding the carry (C02)',
-               '49ca308 fix: inverse_with_context exchanges Floor and Ceiling for negative values (C12)']
+               '49ca308 fix: inverse_with_context exchanges Floor and Ceiling for negative values (C12)',
+               '343238e fix: parser rejects a sign character after the decimal point (C05)']
 NOTES = ('Contract-based deductive verification (Verus) of functions re-extracted from /repo on every run; '
          'see DESIGN.md.  exit 2 = undecided because of the machinery (never a violation).')
 
@@ -76,8 +78,7 @@ NOT_APPLICABLE = {
     'C13': 'statement about the real function e^x to one ulp; contracts here are integer-only and the Taylor loop has no termination measure (DESIGN.md section 7)',
     'C17': 'feature-gated code generic over foreign serde traits and strings; no contract within reach (DESIGN.md section 7)',
 }
-for _p in ['C05', 'C14']:
-    NOT_APPLICABLE[_p] = _WIP
+NOT_APPLICABLE['C05'] = _WIP
 
 _NOTE_COMMON = ('Assumed: num-bigint/num-traits/num-integer contracts (spec/shim_base.rs, vf/shimgen.py), std specs, '
                 'size bound 2^60 on digit vectors, the extractor and its rewrite table; machine arithmetic is NOT treated as mathematical '
@@ -181,6 +182,19 @@ prop('C12', units=['inverse', 'prim_div', 'core', 'context', 'config'], level='p
                  'within reach expresses convergence from an f64 start value); a few inputs are replayed with an integer oracle'),
      level_note=_NOTE_COMMON + ' A change inside the Newton loop is not seen by this check except through the replayed inputs.',
      technique=_TECH + '; replay of concrete inputs with an integer oracle')
+
+prop('C14', units=['float', 'core', 'types', 'conv'], level='proof',
+     hooks=[_h.kani_hook(['split_f32', 'split_f64'])],
+     level_text=('PARTIAL (float -> decimal direction only). Verus proves on the real bodies of split_f32/f64_into_parts, parse_from_f32/f64, parse_from_f32/f64_subnormal, '
+                 'try_parse_from_f32/f64, TryFrom<f32>/<f64> and FromPrimitive::from_f32/from_f64 that for EVERY bit pattern that is not NaN/infinite the resulting decimal (i, s) satisfies '
+                 'i * 2^(-e) == +-m * 10^s over the integers, where (sign, e, m) are the IEEE fields of the input (hidden bit added for normal values, m = raw fraction and e = -149 / -1074 '
+                 'for subnormals) -- i.e. the decimal IS the binary value, digit for digit -- that both zeros give 0, and that NaN and +-infinity are rejected (Err / None). '
+                 'The decimal constants 5^149 and 5^1074 written out in the source are proved equal to the powers (generated Horner lemmas over the u32 words). '
+                 'NOT decided here: the decimal -> float direction (to_f64 / to_f32: f64 multiplication, powi and the std float parser have no contract-based route), so '
+                 'round-tripping and nearest-float rounding are outside this check'),
+     level_note=_NOTE_COMMON + (' f32::to_bits / classify are tied to uninterpreted f32_bits / f32_category specs with the IEEE field definitions as axioms (spec/shim_base.rs); '
+                                'BigUint::from_slice / pow / shifts are assumed contracts; trailing_zeros uses the vstd axiom.'),
+     technique=_TECH)
 
 prop('C15', units=['toint', 'conv', 'scale', 'core', 'pow10'], level='proof',
      level_text=('Verus proves that to_i64/to_i128/to_u64/to_u128 (on references and, through them, on values) return Some(trunc(i*10^-s)) '
